@@ -772,7 +772,10 @@ def check_shared_class_state(ctx: Check, tree: Tree) -> None:
         if not q.startswith("ampform"):
             continue
         n_classes += 1
-        is_attrs = any(t in {"attrs.define", "attrs.frozen", "attr.s", "attrs.mutable", "attr.define", "attr.frozen", "dataclasses.dataclass"} for t, _ in cls.decorators)
+        # a dataclass refuses a mutable default at class creation (ValueError: the module would not import); attrs does NOT:
+        # `x: dict = {}` in an attrs class is ONE dict handed to every instance by the generated __init__ (attrs.Factory /
+        # field(factory=...) is the per-instance spelling), so for attrs classes the default is shared state like any other
+        is_attrs = any(t in {"dataclasses.dataclass"} for t, _ in cls.decorators)
         shared: dict[str, ast.AST] = {}
         for st in cls.node.body:
             target, value = None, None
